@@ -29,3 +29,14 @@ namespace
     };
 }
 Term *make_term_xx() { return new TermXX(); }
+namespace
+{
+    struct XRl : XReadline
+    {
+        igris::readline rl;
+        void init(unsigned cap, unsigned hist) override { rl.init(cap, hist); }
+        int key(int c) override { return rl.newdata((char)c); }
+        int linecpy(char *dst, unsigned long size) override { return rl.linecpy(dst, size); }
+    };
+}
+XReadline *make_xreadline() { return new XRl(); }
